@@ -3,6 +3,7 @@ package main
 import (
 	"math"
 	"math/rand"
+	"strings"
 
 	. "github.com/pbenner/autodiff"
 	"github.com/pbenner/autodiff/algorithm/adam"
@@ -77,7 +78,7 @@ var routines = []*routine{
 	{name: "adam", families: scalarFamilies, variants: []string{"0.05", "0.3"}, hookKind: "gy", iterBy: "eval", consOpt: true, hookOpt: true, smallCap: 3, bigCap: 300, epsDiv: 3, run: runAdam},
 	{name: "adam.gradient", families: scalarFamilies, variants: []string{""}, hookKind: "g", iterBy: "eval", consOpt: true, hookOpt: true, smallCap: 3, bigCap: 200, epsDiv: 3, run: runAdamGradient},
 	{name: "saga", families: []string{"quad"}, variants: []string{"dense1", "dense2", "sparse1", "sparse2"}, hookKind: "args", iterBy: "eval", hookOpt: true, smallCap: 3, bigCap: 300, epsDiv: 1, run: runSaga},
-	{name: "lineSearch", families: scalarFamilies, variants: []string{"1", "0.1", "10"}, hookKind: "gy", iterBy: "eval", consOpt: true, hookOpt: true, smallCap: 3, bigCap: 20, epsDiv: 1, run: runLineSearch},
+	{name: "lineSearch", families: scalarFamilies, variants: []string{"1", "0.1", "10", "1/short", "0.1/short"}, hookKind: "gy", iterBy: "eval", consOpt: true, hookOpt: true, smallCap: 3, bigCap: 20, epsDiv: 1, run: runLineSearch},
 }
 
 func mkVec(x []float64, rng *rand.Rand) Vector {
@@ -134,17 +135,17 @@ func (pr *problem) consConstVec(r *rec) func(x ConstVector) bool {
 
 func runBfgs(pr *problem, variant string, o combo, maxit int, rng *rand.Rand, r *rec) result {
 	x0 := mkVec(pr.x0, rng)
-	args := []interface{}{bfgs.Epsilon{pr.eps}}
+	args := []interface{}{bfgs.Epsilon{Value: pr.eps}}
 	if maxit >= 0 {
-		args = append(args, bfgs.MaxIterations{maxit})
+		args = append(args, bfgs.MaxIterations{Value: maxit})
 	}
 	if o.HookStop >= 0 {
-		args = append(args, bfgs.Hook{func(x, g ConstVector, y ConstScalar) bool {
+		args = append(args, bfgs.Hook{Value: func(x, g ConstVector, y ConstScalar) bool {
 			return r.hook(floats(x), floats(g), []float64{y.GetFloat64()}, true)
 		}})
 	}
 	if pr.cons != nil {
-		args = append(args, bfgs.Constraints{pr.consVec(r)})
+		args = append(args, bfgs.Constraints{Value: pr.consVec(r)})
 	}
 	var xn Vector
 	var err error
@@ -158,12 +159,12 @@ func runBfgs(pr *problem, variant string, o combo, maxit int, rng *rand.Rand, r 
 /* -------------------------------------------------------------- Newton */
 
 func newtonArgs(pr *problem, variant string, maxit int, r *rec) []interface{} {
-	args := []interface{}{newton.Epsilon{pr.eps}, newton.HessianModification{variant}}
+	args := []interface{}{newton.Epsilon{Value: pr.eps}, newton.HessianModification{Value: variant}}
 	if maxit >= 0 {
-		args = append(args, newton.MaxIterations{maxit})
+		args = append(args, newton.MaxIterations{Value: maxit})
 	}
 	if pr.cons != nil {
-		args = append(args, newton.Constraints{pr.consVec(r)})
+		args = append(args, newton.Constraints{Value: pr.consVec(r)})
 	}
 	return args
 }
@@ -172,7 +173,7 @@ func runNewtonRoot(pr *problem, variant string, o combo, maxit int, rng *rand.Ra
 	x0 := NewDenseFloat64Vector(append([]float64{}, pr.x0...))
 	args := newtonArgs(pr, variant, maxit, r)
 	if o.HookStop >= 0 {
-		args = append(args, newton.HookRoot{func(x ConstVector, J ConstMatrix, y ConstVector) bool {
+		args = append(args, newton.HookRoot{Value: func(x ConstVector, J ConstMatrix, y ConstVector) bool {
 			return r.hook(floats(x), matFloats(J), floats(y), true)
 		}})
 	}
@@ -192,7 +193,7 @@ func runNewtonCrit(pr *problem, variant string, o combo, maxit int, rng *rand.Ra
 	args := newtonArgs(pr, variant, maxit, r)
 	if o.HookStop >= 0 {
 		// RunCrit: the hook receives (x, Hessian, gradient); there is no function value
-		args = append(args, newton.HookCrit{func(x ConstVector, H ConstMatrix, g ConstVector) bool {
+		args = append(args, newton.HookCrit{Value: func(x ConstVector, H ConstMatrix, g ConstVector) bool {
 			return r.hook(floats(x), append(floats(g), matFloats(H)...), nil, true)
 		}})
 	}
@@ -209,7 +210,7 @@ func runNewtonMin(pr *problem, variant string, o combo, maxit int, rng *rand.Ran
 	x0 := NewDenseFloat64Vector(append([]float64{}, pr.x0...))
 	args := newtonArgs(pr, variant, maxit, r)
 	if o.HookStop >= 0 {
-		args = append(args, newton.HookMin{func(x, g ConstVector, H ConstMatrix, y ConstScalar) bool {
+		args = append(args, newton.HookMin{Value: func(x, g ConstVector, H ConstMatrix, y ConstScalar) bool {
 			return r.hook(floats(x), append(floats(g), matFloats(H)...), []float64{y.GetFloat64()}, true)
 		}})
 	}
@@ -237,17 +238,17 @@ func etaOf(variant string) []float64 {
 func runRprop(pr *problem, variant string, o combo, maxit int, rng *rand.Rand, r *rec) result {
 	x0 := mkVec(pr.x0, rng)
 	step := []float64{0.01, 0.1, 1}[rng.Intn(3)]
-	args := []interface{}{rprop.Epsilon{pr.eps}}
+	args := []interface{}{rprop.Epsilon{Value: pr.eps}}
 	if maxit >= 0 {
-		args = append(args, rprop.MaxIterations{maxit})
+		args = append(args, rprop.MaxIterations{Value: maxit})
 	}
 	if o.HookStop >= 0 {
-		args = append(args, rprop.Hook{func(g, st []float64, x ConstVector, s ConstScalar) bool {
+		args = append(args, rprop.Hook{Value: func(g, st []float64, x ConstVector, s ConstScalar) bool {
 			return r.hook(floats(x), append([]float64{}, g...), []float64{s.GetFloat64()}, true)
 		}})
 	}
 	if pr.cons != nil {
-		args = append(args, rprop.Constraints{pr.consVec(r)})
+		args = append(args, rprop.Constraints{Value: pr.consVec(r)})
 	}
 	var f scalarF = r.wrapF(pr.f)
 	var xn Vector
@@ -274,12 +275,12 @@ func (pr *problem) gradFn(r *rec) func(x, g DenseFloat64Vector) error {
 func runRpropGradient(pr *problem, variant string, o combo, maxit int, rng *rand.Rand, r *rec) result {
 	x0 := NewDenseFloat64Vector(append([]float64{}, pr.x0...))
 	step := []float64{0.01, 0.1, 1}[rng.Intn(3)]
-	args := []interface{}{rprop.Epsilon{pr.eps}}
+	args := []interface{}{rprop.Epsilon{Value: pr.eps}}
 	if maxit >= 0 {
-		args = append(args, rprop.MaxIterations{maxit})
+		args = append(args, rprop.MaxIterations{Value: maxit})
 	}
 	if o.HookStop >= 0 {
-		args = append(args, rprop.Hook{func(g, st []float64, x ConstVector, s ConstScalar) bool {
+		args = append(args, rprop.Hook{Value: func(g, st []float64, x ConstVector, s ConstScalar) bool {
 			var y []float64
 			if s != nil {
 				y = []float64{s.GetFloat64()}
@@ -288,7 +289,7 @@ func runRpropGradient(pr *problem, variant string, o combo, maxit int, rng *rand
 		}})
 	}
 	if pr.cons != nil {
-		args = append(args, rprop.ConstConstraints{pr.consConstVec(r)})
+		args = append(args, rprop.ConstConstraints{Value: pr.consConstVec(r)})
 	}
 	var xn ConstVector
 	var err error
@@ -309,9 +310,9 @@ func runGradientDescent(pr *problem, variant string, o combo, maxit int, rng *ra
 	// admissible step sizes: step < 2/L with L <= sqrt(lip2) (printed by TLC)
 	frac := map[string]float64{"0.5": 0.5, "1": 1, "1.5": 1.5}[variant]
 	step := frac / math.Sqrt(pr.c.Lip2.f())
-	args := []interface{}{gradientDescent.Epsilon{pr.eps}}
+	args := []interface{}{gradientDescent.Epsilon{Value: pr.eps}}
 	if o.HookStop >= 0 {
-		args = append(args, gradientDescent.Hook{func(g []float64, x ConstVector, s ConstScalar) bool {
+		args = append(args, gradientDescent.Hook{Value: func(g []float64, x ConstVector, s ConstScalar) bool {
 			return r.hook(floats(x), append([]float64{}, g...), []float64{s.GetFloat64()}, true)
 		}})
 	}
@@ -330,17 +331,17 @@ func runGradientDescent(pr *problem, variant string, o combo, maxit int, rng *ra
 func runAdam(pr *problem, variant string, o combo, maxit int, rng *rand.Rand, r *rec) result {
 	x0 := mkVec(pr.x0, rng)
 	step := map[string]float64{"0.05": 0.05, "0.3": 0.3}[variant]
-	args := []interface{}{adam.Epsilon{pr.eps}, adam.StepSize{step}}
+	args := []interface{}{adam.Epsilon{Value: pr.eps}, adam.StepSize{Value: step}}
 	if maxit >= 0 {
-		args = append(args, adam.MaxIterations{maxit})
+		args = append(args, adam.MaxIterations{Value: maxit})
 	}
 	if o.HookStop >= 0 {
-		args = append(args, adam.Hook{func(x, g ConstVector, y ConstScalar) bool {
+		args = append(args, adam.Hook{Value: func(x, g ConstVector, y ConstScalar) bool {
 			return r.hook(floats(x), floats(g), []float64{y.GetFloat64()}, true)
 		}})
 	}
 	if pr.cons != nil {
-		args = append(args, adam.Constraints{pr.consVec(r)})
+		args = append(args, adam.Constraints{Value: pr.consVec(r)})
 	}
 	var f scalarF = r.wrapF(pr.f)
 	var xn Vector
@@ -354,12 +355,12 @@ func runAdam(pr *problem, variant string, o combo, maxit int, rng *rand.Rand, r 
 
 func runAdamGradient(pr *problem, variant string, o combo, maxit int, rng *rand.Rand, r *rec) result {
 	x0 := NewDenseFloat64Vector(append([]float64{}, pr.x0...))
-	args := []interface{}{adam.Epsilon{pr.eps}} // RunGradient has no StepSize option
+	args := []interface{}{adam.Epsilon{Value: pr.eps}} // RunGradient has no StepSize option
 	if maxit >= 0 {
-		args = append(args, adam.MaxIterations{maxit})
+		args = append(args, adam.MaxIterations{Value: maxit})
 	}
 	if o.HookStop >= 0 {
-		args = append(args, adam.Hook{func(x, g ConstVector, y ConstScalar) bool {
+		args = append(args, adam.Hook{Value: func(x, g ConstVector, y ConstScalar) bool {
 			var yv []float64
 			if y != nil {
 				yv = []float64{y.GetFloat64()}
@@ -368,7 +369,7 @@ func runAdamGradient(pr *problem, variant string, o combo, maxit int, rng *rand.
 		}})
 	}
 	if pr.cons != nil {
-		args = append(args, adam.ConstConstraints{pr.consConstVec(r)})
+		args = append(args, adam.ConstConstraints{Value: pr.consConstVec(r)})
 	}
 	var xn ConstVector
 	var err error
@@ -456,12 +457,12 @@ func runSaga(pr *problem, variant string, o combo, maxit int, rng *rand.Rand, r 
 		}
 	}
 	x0 := mkVec(pr.x0, rng)
-	args := []interface{}{saga.Epsilon{pr.eps}, saga.Gamma{gamma}, saga.Seed{seed}}
+	args := []interface{}{saga.Epsilon{Value: pr.eps}, saga.Gamma{Value: gamma}, saga.Seed{Value: seed}}
 	if maxit >= 0 {
-		args = append(args, saga.MaxIterations{maxit})
+		args = append(args, saga.MaxIterations{Value: maxit})
 	}
 	if c.D != 0 {
-		args = append(args, saga.TikhonovRegularization{c.D})
+		args = append(args, saga.TikhonovRegularization{Value: c.D})
 	}
 	prev := append([]float64{}, pr.x0...) // the point of the previous epoch
 	epoch := 0
@@ -477,7 +478,7 @@ func runSaga(pr *problem, variant string, o combo, maxit int, rng *rand.Rand, r 
 		return maxD
 	}
 	if o.HookStop >= 0 {
-		args = append(args, saga.Hook{func(x ConstVector, delta, lambda ConstScalar, i int) bool {
+		args = append(args, saga.Hook{Value: func(x ConstVector, delta, lambda ConstScalar, i int) bool {
 			p := floats(x)
 			// documented arguments: the relative step of this epoch, the regularisation constant, the epoch
 			want := relStep(prev, p)
@@ -516,13 +517,24 @@ func runSaga(pr *problem, variant string, o combo, maxit int, rng *rand.Rand, r 
 
 /* --------------------------------------------------------- line search */
 
+func lineVariant(variant string) (alpha1, scale float64) {
+	scale = 1
+	if strings.HasSuffix(variant, "/short") {
+		scale = 1.0 / 128
+		variant = strings.TrimSuffix(variant, "/short")
+	}
+	return map[string]float64{"1": 1, "0.1": 0.1, "10": 10}[variant], scale
+}
+
 func runLineSearch(pr *problem, variant string, o combo, maxit int, rng *rand.Rand, r *rec) result {
-	alpha1 := map[string]float64{"1": 1, "0.1": 0.1, "10": 10}[variant]
-	// one-dimensional restriction along the steepest-descent direction at the start point
+	alpha1, scale := lineVariant(variant)
+	// one-dimensional restriction along the steepest-descent direction at the start point ("short": the
+	// direction is scaled by 1/128, so that the first trial steps are far too short and the curvature
+	// condition decides)
 	_, g0 := valGrad(pr.f, pr.x0)
 	d := make([]float64, len(g0))
 	for i := range g0 {
-		d[i] = -g0[i]
+		d[i] = -g0[i] * scale
 	}
 	point := func(alpha float64) []float64 {
 		p := make([]float64, len(d))
@@ -545,14 +557,14 @@ func runLineSearch(pr *problem, variant string, o combo, maxit int, rng *rand.Ra
 		}
 		return s, err
 	}
-	args := []interface{}{lineSearch.Parameters{alpha1, maxit}}
+	args := []interface{}{lineSearch.Parameters{Alpha1: alpha1, MaxEval: maxit}}
 	if o.HookStop >= 0 {
-		args = append(args, lineSearch.Hook{func(a, y, g ConstScalar) bool {
+		args = append(args, lineSearch.Hook{Value: func(a, y, g ConstScalar) bool {
 			return r.hook([]float64{a.GetFloat64()}, []float64{g.GetFloat64()}, []float64{y.GetFloat64()}, true)
 		}})
 	}
 	if pr.cons != nil {
-		args = append(args, lineSearch.Constraints{func(a ConstScalar) bool {
+		args = append(args, lineSearch.Constraints{Value: func(a ConstScalar) bool {
 			return r.cons([]float64{a.GetFloat64()}, pr.cons(point(a.GetFloat64())))
 		}})
 	}
@@ -661,7 +673,7 @@ func runBlahut(cp *chanProblem, o combo, r *rec) result {
 			ch[i] = append([]float64{}, W[i]...)
 		}
 		msg = vh.Try(func() {
-			out = blahut.RunNaive(ch, p0, cp.steps, blahut.HookNaive{func(p []float64, J float64) bool { return hook(append([]float64{}, p...), J) }})
+			out = blahut.RunNaive(ch, p0, cp.steps, blahut.HookNaive{Value: func(p []float64, J float64) bool { return hook(append([]float64{}, p...), J) }})
 		})
 		startOK = bitsEqual(p0, cp.p0)
 	} else {
@@ -672,7 +684,7 @@ func runBlahut(cp *chanProblem, o combo, r *rec) result {
 		ch := NewDenseFloat64Matrix(flat, len(W), len(W[0]))
 		p0 := NewDenseFloat64Vector(append([]float64{}, cp.p0...))
 		msg = vh.Try(func() {
-			v := blahut.Run(ch, p0, cp.steps, blahut.Hook{func(p Vector, J Scalar) bool { return hook(floats(p), J.GetFloat64()) }}, blahut.Lambda{1.0})
+			v := blahut.Run(ch, p0, cp.steps, blahut.Hook{Value: func(p Vector, J Scalar) bool { return hook(floats(p), J.GetFloat64()) }}, blahut.Lambda{Value: 1.0})
 			out = floats(v)
 		})
 		startOK = bitsEqual(floats(p0), cp.p0)
